@@ -481,6 +481,12 @@ Proof.
   apply filter_In in Hin. destruct Hin as [Hin Ht]. rewrite (Hd d Hin) in Ho; [discriminate|]. exact Ht.
 Qed.
 
+Lemma NoDup_prefix : forall {A} (a b : list A), NoDup (a ++ b) -> NoDup a.
+Proof.
+  intros A a b. induction a as [|x r IH]; cbn [app]; intros H; [constructor|]. inversion H as [|? ? Hni Hr]; subst.
+  constructor; [intros Hin; apply Hni; apply in_or_app; left; assumption|apply IH; assumption].
+Qed.
+
 Lemma gsb : forall ds o p, ds_order ds = o -> ds_start ds = dbc_start_bit p o -> 0 <= p < 2 ^ 31 -> get_start_bit ds = p.
 Proof.
   intros ds o p Ho Hs H. unfold get_start_bit. rewrite Ho, Hs. unfold dbc_start_bit. destruct o.
@@ -628,7 +634,7 @@ Section MuxImport.
     - intros a b Ha Hb Hta Htb Hne. apply L2; try assumption; apply filter_In; auto.
   Qed.
 
-  Lemma selw_facts : 1 <= selw <= 32 /\ s_gcount mx <= 2 ^ selw /\ 1 <= s_gcount mx /\ 1 <= s_gsize mx.
+  Lemma selw_facts : 1 <= selw <= 32 /\ s_gcount mx <= 2 ^ selw /\ 1 <= s_gcount mx /\ 1 <= s_gsize mx /\ s_gcount mx <= 2 ^ 32.
   Proof.
     destruct mx_top as [[_ [_ [_ [_ [_ [_ Hk]]]]]] _]. unfold is_muxb in Hmxm. destruct (s_kind mx); try discriminate.
     destruct Hk as [[Hg1 Hg2] Hgs]. unfold selw, sel_width, calc_size_from_value.
@@ -740,5 +746,114 @@ Section MuxImport.
       { intros Heq. rewrite map_app in Hnd. cbn [map] in Hnd. apply NoDup_remove_2 in Hnd. apply Hnd. apply in_or_app. left. rewrite Heq. apply in_map. assumption. }
       unfold sig_size, overlaps. cbn [s_kind std_imp s_size s_rel timg place]. rewrite F2, (proj1 (proj2 (img_fields (snd q) Hqs Hqne))).
       destruct (proj2 tops_geo (snd p) (snd q) Hs Hqs Ht Hqt Hpq) as [Hd|Hd]; rewrite ?Hsz, ?Hqsz in Hd; lia.
+  Qed.
+
+  (* ---- the multiplexer and its children ---- *)
+  Definition kimg (p : Z * signal) : signal :=
+    place (std_imp env msgid (fst p) (img (snd p))) (s_rel (snd p)) (Some mid) [grp (snd p)].
+  Definition cend (c : signal) : Z := s_size c + (mstart + selw + s_rel c).
+
+  Definition ebit (es' : list enum_def) (a : Z) (l : list (Z * signal)) : Z :=
+    fold_left (fun acc (p : subtree * dsignal) =>
+                 let e := sig_size es' (fst (fst p)) + get_start_bit (snd p) in if e >? acc then e else acc) (map ent l) a.
+
+  Lemma child_entry : forall es' p, In (snd p) sigs -> is_topb (snd p) = false ->
+    sig_size es' (fst (fst (ent p))) + get_start_bit (snd (ent p)) = cend (snd p) /\ snd p <> mx.
+  Proof.
+    intros es' p Hs Ht. assert (Hne : snd p <> mx) by (intros Heq; destruct mx_top as [_ H']; rewrite Heq in Ht; congruence).
+    split; [|assumption]. unfold ent. cbn [fst snd]. rewrite (start_child _ Hs Ht).
+    unfold sig_size. cbn [s_kind std_imp s_size]. rewrite (proj1 (proj2 (img_fields _ Hs Hne))). reflexivity.
+  Qed.
+
+  Lemma ebit_spec : forall es' l a, (forall p, In p l -> In (snd p) sigs /\ is_topb (snd p) = false) ->
+    a <= ebit es' a l /\ (forall p, In p l -> cend (snd p) <= ebit es' a l) /\
+    (forall B, a <= B -> (forall p, In p l -> cend (snd p) <= B) -> ebit es' a l <= B).
+  Proof.
+    intros es' l. induction l as [|p r IH]; intros a HP; unfold ebit; cbn [map fold_left].
+    - split; [lia|]. split; [intros p []|intros B HB _; exact HB].
+    - destruct (HP p (or_introl eq_refl)) as [Hs Ht]. destruct (child_entry es' p Hs Ht) as [He _]. cbv zeta. rewrite He.
+      fold (ebit es' (if cend (snd p) >? a then cend (snd p) else a) r).
+      destruct (IH (if cend (snd p) >? a then cend (snd p) else a) (fun q Hq => HP q (or_intror Hq))) as [I1 [I2 I3]].
+      split; [destruct (cend (snd p) >? a) eqn:E; lia|]. split.
+      + intros q [<-|Hq]; [destruct (cend (snd p) >? a) eqn:E; lia|apply I2; assumption].
+      + intros B HB Hall. apply I3; [|intros q Hq; apply Hall; right; assumption].
+        pose proof (Hall p (or_introl eq_refl)). destruct (cend (snd p) >? a); lia.
+  Qed.
+
+  Definition kstep (es' : list enum_def) (mx0 : signal) (acc : result (list signal * list signal)) (p : subtree * dsignal) :=
+    do (kids, belows) <- acc;
+    let rel := get_start_bit (snd p) - mstart - selw in
+    do gids <- child_groups env msgid (s_gcount mx0) (fst (fst p)) (snd p);
+    do c <- mux_insert es' mx0 kids (fst (fst p)) rel gids;
+    Ok (kids ++ [c], belows ++ snd (fst p)).
+
+  Lemma mux_kid_step : forall es' mx0 done p,
+    s_id mx0 = mid -> s_gcount mx0 = 2 ^ selw ->
+    (forall q, In q (done ++ [p]) -> In (snd q) sigs /\ is_topb (snd q) = false /\ s_rel (snd q) + s_size (snd q) <= s_gsize mx0) ->
+    NoDup (map snd (done ++ [p])) ->
+    kstep es' mx0 (Ok (map kimg done, [])) (ent p) = Ok (map kimg (done ++ [p]), []).
+  Proof.
+    intros es' mx0 done p Hid Hgc HP Hnd. unfold kstep.
+    destruct (HP p ltac:(apply in_or_app; right; left; reflexivity)) as [Hs [Ht Hfit]].
+    assert (Hne : snd p <> mx) by (intros Heq; destruct mx_top as [_ H']; rewrite Heq in Ht; congruence).
+    destruct (other_sig _ Hs Hne) as [Hnm [Hk [[Htt _]|[_ Hok]]]]; [congruence|].
+    destruct (img_fields _ Hs Hne) as [F1 [F2 [F3 _]]].
+    destruct (child_geo _ Hs Ht) as [G1 [G2 [G3 [G4 G5]]]].
+    destruct Hok as [_ [_ [[g [Hg Hgr]] _]]]. assert (Hgrp : grp (snd p) = g) by (unfold grp; rewrite Hg; reflexivity).
+    destruct selw_facts as [Hsw [Hgc' [_ [_ Hg32]]]].
+    cbn [bind]. change (ent p) with ((std_imp env msgid (fst p) (img (snd p)), @nil signal), img (snd p)). cbn [fst snd]. cbv zeta.
+    assert (Hcsz : sig_size es' (std_imp env msgid (fst p) (img (snd p))) = s_size (snd p)) by (unfold sig_size; cbn [s_kind std_imp s_size]; exact F2).
+    unfold child_groups. cbn [s_name std_imp]. rewrite Hext. cbn [lookup bind]. rewrite F3, Ht. cbn [negb].
+    assert (Hsw' : ds_switch (img (snd p)) = g).
+    { unfold img. rewrite Hnm, Ht. cbn [ds_switch child_dsig]. rewrite Hgrp. apply u32_id. lia. }
+    rewrite Hsw', (start_child _ Hs Ht).
+    replace (mstart + selw + s_rel (snd p) - mstart - selw) with (s_rel (snd p)) by lia.
+    unfold mux_insert.
+    rewrite not_in_mem_str.
+    2:{ cbn [s_name std_imp]. rewrite F1. rewrite map_map. intros Hin. apply in_map_iff in Hin. destruct Hin as [q [Hq Hqin]].
+        cbn [s_name kimg place std_imp] in Hq.
+        destruct (HP q ltac:(apply in_or_app; left; assumption)) as [Hqs [Hqt _]].
+        assert (Hqne : snd q <> mx) by (intros Heq; destruct mx_top as [_ H']; rewrite Heq in Hqt; congruence).
+        rewrite (proj1 (img_fields (snd q) Hqs Hqne)) in Hq.
+        destruct Hms as [_ [Hnm' _]]. assert (snd q = snd p) by (apply (NoDup_map_inj (fun s => clear (s_name s)) sigs); assumption).
+        rewrite map_app in Hnd. cbn [map] in Hnd. apply NoDup_remove_2 in Hnd. apply Hnd. apply in_or_app. left. rewrite <- H. apply in_map. assumption. }
+    cbn [dedup_z mem_z existsb fold_left bind]. rewrite Hgc.
+    replace ((g <? 0) || (g >=? 2 ^ selw)) with false by lia.
+    unfold verify_insert. rewrite Hcsz.
+    replace (s_rel (snd p) <? 0) with false by lia. replace (s_size (snd p) >? s_gsize mx0) with false by lia.
+    replace (s_rel (snd p) + s_size (snd p) >? s_gsize mx0) with false by lia.
+    replace (existsb _ (filter _ (map kimg done))) with false.
+    2:{ symmetry. destruct (existsb _ (filter _ (map kimg done))) eqn:E; [|reflexivity]. exfalso.
+        apply existsb_exists in E. destruct E as [d [Hd Ho]]. apply filter_In in Hd. destruct Hd as [Hd Hig].
+        apply in_map_iff in Hd. destruct Hd as [q [<- Hqin]].
+        destruct (HP q ltac:(apply in_or_app; left; assumption)) as [Hqs [Hqt _]].
+        assert (Hqne : snd q <> mx) by (intros Heq; destruct mx_top as [_ H']; rewrite Heq in Hqt; congruence).
+        assert (Hpq : snd p <> snd q).
+        { intros Heq. rewrite map_app in Hnd. cbn [map] in Hnd. apply NoDup_remove_2 in Hnd. apply Hnd. apply in_or_app. left. rewrite Heq. apply in_map. assumption. }
+        unfold in_group in Hig. cbn [s_groups kimg place] in Hig. unfold mem_z in Hig. cbn [existsb] in Hig. rewrite orb_false_r in Hig.
+        apply Z.eqb_eq in Hig.
+        destruct Hms as [_ [_ [_ [_ [_ [Hdis _]]]]]].
+        unfold overlaps, sig_size in Ho. cbn [s_kind s_rel s_size kimg place std_imp] in Ho.
+        rewrite (proj1 (proj2 (img_fields (snd q) Hqs Hqne))) in Ho.
+        destruct (Hdis (snd p) (snd q) Hs Hqs Ht Hqt Hpq ltac:(rewrite Hgrp; exact Hig)) as [Hd|Hd]; lia. }
+    cbn [bind sort_by fold_right insert_sorted].
+    replace (map kimg done ++ [place (std_imp env msgid (fst p) (img (snd p))) (s_rel (snd p)) (Some (s_id mx0)) [g]]) with (map kimg (done ++ [p])).
+    2:{ rewrite map_app. cbn [map]. f_equal. f_equal. unfold kimg. rewrite Hid, Hgrp. reflexivity. }
+    rewrite app_nil_r. reflexivity.
+  Qed.
+
+  Lemma mux_kids : forall es' mx0 l done,
+    s_id mx0 = mid -> s_gcount mx0 = 2 ^ selw ->
+    (forall p, In p (done ++ l) -> In (snd p) sigs /\ is_topb (snd p) = false /\ s_rel (snd p) + s_size (snd p) <= s_gsize mx0) ->
+    NoDup (map snd (done ++ l)) ->
+    fold_left (kstep es' mx0) (map ent l) (Ok (map kimg done, [])) = Ok (map kimg (done ++ l), []).
+  Proof.
+    intros es' mx0 l. induction l as [|p r IH]; intros done Hid Hgc HP Hnd; cbn [map fold_left]; [rewrite app_nil_r; reflexivity|].
+    rewrite mux_kid_step; try assumption.
+    - assert (HI : forall x, x = done ++ p :: r -> (done ++ [p]) ++ r = x) by (intros x ->; rewrite <- app_assoc; reflexivity).
+      pose proof (IH (done ++ [p]) Hid Hgc) as HI2. rewrite (HI _ eq_refl) in HI2. exact (HI2 HP Hnd).
+    - intros q Hq. apply HP. apply in_app_or in Hq. apply in_or_app. destruct Hq as [Hq|[<-|[]]]; [left; assumption|right; left; reflexivity].
+    - replace (done ++ p :: r) with ((done ++ [p]) ++ r) in Hnd by (rewrite <- app_assoc; reflexivity).
+      rewrite map_app in Hnd. eapply NoDup_prefix. exact Hnd.
   Qed.
 End MuxImport.
